@@ -78,6 +78,8 @@ def run(ctx: core.Ctx) -> int:
     for k_, c_ in enumerate(cases):
         if k_ % 3 == 1 and not c_.get("git"):
             c_["twins"] = True
+        if k_ % 40 == 5 and c_["p"].get("tomls") and not c_.get("git"):
+            c_["locale_c"] = True
     events = ctx.pmap(projmodel.run_project_case, cases, chunksize=16)
     for ev in events[:: max(1, n_lint // 3)][:3] + events[-1:]:
         o = ev["obs"]
